@@ -127,7 +127,7 @@ Print Assumptions C09_char64_legacy_refuted.
    raw or with print_escaped_char's escapes; every length 0, 1, 2, ... and every byte value 1..255. *)
 Theorem C09_str_arg_roundtrip : forall syms fill inp st s p c,
   m_stop st = false -> is_arg s -> s_fmt s = FStr -> s_size s = 8 -> lenN (m_val st) = VAL_SIZE ->
-  arg_word inp s = Some p -> p < 2 ^ 64 -> p <> 0 -> assoc p (strs inp) = Some c ->
+  arg_word inp s = Some p -> p < 2 ^ 64 -> p <> 0 -> lookup_str (strs inp) p = Some c ->
   nz c -> c <> [255; 255; 255; 255] ->
   m_total st + need s (AStr c) <= MAX_SIZE ->
   exists chunk,
@@ -302,3 +302,88 @@ Theorem C09_script_string : forall l s fill body tl ahead later,
   = match l with Py => if utf8_valid body then OStr body else OInvalid | Lua => OStr body end.
 Proof. exact script_str. Qed.
 Print Assumptions C09_script_string.
+
+(* ---------------------------------------------------------------- the text inside replay's 1 KiB buffer *)
+(* get_argspec_string writes into char args[1024] piece by piece (print_args / print_char, after the fix: commits
+   618ee80 / 0cdad2d: a piece that does not fit is dropped whole, nothing more is taken; the loop stops when fewer than
+   2 characters are left).  Model: show_pieces / put / show_loop_b / show_args_b / show_ret_b.
+   Whatever the arguments, the text stays inside the buffer ... *)
+Theorem C09_text_within_buffer : forall syms specs data,
+  lenN (show_args_b syms specs data) <= TEXT_SIZE - 1 /\ lenN (show_ret_b syms specs data) <= TEXT_SIZE - 1.
+Proof. exact text_within_buffer. Qed.
+Print Assumptions C09_text_within_buffer.
+
+(* ... and when the whole text fits the 1023 characters replay prints exactly the unbounded text of the round-trip
+   theorems *)
+Theorem C09_text_fits : forall syms specs data,
+  lenN (show_args syms specs data) <= TEXT_SIZE - 1 -> show_args_b syms specs data = show_args syms specs data.
+Proof. exact show_args_b_fits. Qed.
+Print Assumptions C09_text_fits.
+
+(* so C09_roundtrip holds for what replay really prints *)
+Theorem C09_roundtrip_in_buffer : forall syms fill inp l,
+  l <> [] ->
+  Forall (fun p => is_arg (fst p) /\ covered inp (fst p) (snd p)) l ->
+  fits l = true ->
+  lenN (show_args syms (map fst l) (payload (run fill inp false (map fst l)))) <= TEXT_SIZE - 1 ->
+  ok_args l (show_args_b syms (map fst l) (payload (run fill inp false (map fst l)))) = true.
+Proof. exact call_roundtrip_bounded. Qed.
+Print Assumptions C09_roundtrip_in_buffer.
+
+(* the hypothesis is needed: 10 strings of 97 newlines (1980 characters with the escapes) are cut to 1022 at a whole escape; the
+   checker accepts the cut text because every value it shows is right *)
+Theorem C09_text_cut_example :
+  let p := payload (run 0 long_inp false long_specs) in
+  lenN (show_args [] long_specs p) = 1980 /\
+  lenN (show_args_b [] long_specs p) = 1022 /\
+  ok_args (map (fun s => (s, AStr (repeat 10 97))) long_specs) (show_args_b [] long_specs p) = true.
+Proof. exact long_text_cut. Qed.
+Print Assumptions C09_text_cut_example.
+
+(* ---------------------------------------------------------------- structs in SSE registers *)
+Theorem C09_struct_sse_whole :
+  let sp := {| s_idx := 1; s_fmt := FStruct; s_size := 16; s_type := TReg; s_u := 102%Z; s_regs := [101%Z; 102%Z]; s_name := [] |} in
+  let inp := {| regs := []; xmm := [0x3ff8000000000001; 0x4002000000000002]; stk := []; rets := []; strs := []; wrds := [] |} in
+  payload (run 0 inp false [sp]) = Some (le_bytes 8 0x3ff8000000000001 ++ le_bytes 8 0x4002000000000002).
+Proof. exact struct_sse_whole. Qed.
+Print Assumptions C09_struct_sse_whole.
+
+Theorem C09_struct_sse_legacy_refuted :
+  let sp := {| Legacy.s_idx := 1; Legacy.s_fmt := Legacy.FStruct; Legacy.s_size := 16; Legacy.s_type := Legacy.TReg;
+               Legacy.s_u := 102%Z; Legacy.s_regs := [101%Z; 102%Z]; Legacy.s_name := [] |} in
+  let inp := {| Legacy.regs := []; Legacy.xmm := [0x3ff8000000000001; 0x4002000000000002]; Legacy.stk := []; Legacy.rets := [];
+                Legacy.strs := []; Legacy.wrds := [] |} in
+  Legacy.payload (Legacy.run 0 inp false [sp]) = Some [1; 0; 0; 0; 0; 0; 0; 0; 2; 0; 0; 0; 0; 0; 0; 0].
+Proof. exact LegacyProofs.struct_sse_refuted. Qed.
+Print Assumptions C09_struct_sse_legacy_refuted.
+
+(* ---------------------------------------------------------------- only vetted pointers are dereferenced *)
+(* check_mem_region / find_mem_region: readable memory is a set of half-open ranges [start, end) (model: lookup_str over
+   the declared objects).  Whatever the specs and the register / stack contents, every pointer save_to_argbuf
+   dereferences (run_derefs: str[0] of a string argument, the std::string object) lies inside such a range ... *)
+Theorem C09_derefs_readable : forall fill inp is_ret specs,
+  Forall (fun a => readable inp a = true) (run_derefs fill inp is_ret specs).
+Proof. exact derefs_readable. Qed.
+Print Assumptions C09_derefs_readable.
+
+(* ... where first byte and last byte of a range are inside and its end address (one past the last byte) and the byte in
+   front of it are not *)
+Theorem C09_region_half_open : forall a c,
+  lookup_str [(a, c)] a = Some c /\
+  lookup_str [(a, c)] (a + lenN c) = Some [] /\
+  lookup_str [(a, c)] (a + lenN c + 1) = None /\
+  (0 < a -> lookup_str [(a, c)] (a - 1) = None).
+Proof. exact lookup_half_open. Qed.
+Print Assumptions C09_region_half_open.
+
+(* a string pointer equal to the END of a readable range is not dereferenced and is shown as "<0x...>" (C09_unreadable_pointer
+   is the general statement); one byte earlier it is the string's NUL: dereferenced, shown as "" *)
+Theorem C09_end_of_range_not_dereferenced :
+  let inp := {| regs := [4096 + 4; 0; 0; 0; 0; 0]; xmm := []; stk := []; rets := []; strs := [(4096, [69; 69; 69])]; wrds := [] |} in
+  run_derefs 0 inp false [spec_str 1] = [] /\
+  show_args_b [] [spec_str 1] (payload (run 0 inp false [spec_str 1])) = [40; 34] ++ bad_ptr_text 4100 ++ [34; 41] /\
+  let inp' := {| regs := [4096 + 3; 0; 0; 0; 0; 0]; xmm := []; stk := []; rets := []; strs := [(4096, [69; 69; 69])]; wrds := [] |} in
+  run_derefs 0 inp' false [spec_str 1] = [4099] /\
+  show_args_b [] [spec_str 1] (payload (run 0 inp' false [spec_str 1])) = [40; 34; 34; 41].
+Proof. exact end_of_range_not_dereferenced. Qed.
+Print Assumptions C09_end_of_range_not_dereferenced.
